@@ -310,6 +310,30 @@ pub fn subs_for(id: &str) -> Vec<Sub> {
             sub(
                 lp(
                     "C01",
+                    "c01-layout-heavy-readers",
+                    "heavy-reader class: <= 8 resources, up to 6 reads and at most 1 write per system, up to 40 systems, no dependencies: groups whose accumulated read lists (with duplicates) outgrow the inline capacity of 12 and keep growing",
+                    GenCfg {
+                        max_ops: 40,
+                        universe_max: 10,
+                        max_reads: 6,
+                        max_writes: 1,
+                        write_chance: 4,
+                        p_dep: 0,
+                        p_barrier: 0,
+                        p_batch: 0,
+                        p_tl: 0,
+                        p_static: 0,
+                        ..GenCfg::default()
+                    },
+                    900,
+                    p_layout::o_c01,
+                ),
+                150_000,
+                3_000_000,
+            ),
+            sub(
+                lp(
+                    "C01",
                     "c01-layout-wide",
                     "wide class (stages of more than 6 groups, groups with more than 12 accumulated reads, dependency lists of up to 7 names)",
                     GenCfg {
@@ -1005,7 +1029,7 @@ pub fn sched_subs_for(id: &str) -> Vec<Sub> {
                     ..sched_cfg()
                 },
                 vec![Want::ThreadLocal, Want::Counts],
-                vec![Dispatch, SeqTl],
+                vec![Dispatch, SeqTl, RunNowTrait],
                 vec![0, 1, 2],
                 p_sched::nt_thread_local,
             ),
